@@ -371,3 +371,32 @@ package mqtt
 //@ ensures[C19] !fs_exists(fsname(sid(dir), key, 0)) ==> value == nil && err == nil
 //@ ensures[C19] err == nil && value != nil ==> fs_exists(fsname(sid(dir), key, 0))
 //@ ensures[C19] forall(n, fs_exists(n) == old(fs_exists(n)) && fs_log(n) == old(fs_log(n)) && fs_sync(n) == old(fs_sync(n)))
+
+// Signals: a singleton holder channel carries the current signal channel.
+//@ func mqtt.clearSignalChan
+//@ requires ch != nil && !closed(ch) && cap(ch) == 1
+//@ recvinv ch(v): v != nil
+//@ modifies chanstate(ch), region("chan.len.struct()"), region("chan.head.struct()"), region("chan.q.struct()"), region("chan.closed.struct()")
+//@ ensures !closed(ch) && cap(ch) == 1
+
+//@ func mqtt.blockSignalChan
+//@ requires ch != nil && !closed(ch) && cap(ch) == 1
+//@ recvinv ch(v): v != nil
+//@ modifies chanstate(ch), region("chan.len.struct()"), region("chan.head.struct()"), region("chan.q.struct()"), region("chan.closed.struct()"), region("chan.cap.struct()")
+//@ ensures !closed(ch) && cap(ch) == 1
+
+//@ func mqtt.(*unorderedTxs).breakAll
+//@ unverified
+//@ modifies region("map.map[uint16]mqtt.unorderedCallback"), region("map.len"), region("chan.len.error"), region("chan.head.error"), region("chan.q.error")
+//@ ensures forall(k, !has(txs.perPacketID, k))
+
+// toOffline: leave the connection; everything pending on it is released.
+//@ func mqtt.(*Client).toOffline
+//@ requires writable(c) && c.readConn != nil && c.offlineSig != nil && !closed(c.offlineSig) && cap(c.offlineSig) == 1 && c.pingAck != nil && !closed(c.pingAck) && cap(c.pingAck) == 1
+//@ requires len(c.pingAck) > 0 ==> qat(c.pingAck, 0) != nil && !closed(qat(c.pingAck, 0)) && len(qat(c.pingAck, 0)) < cap(qat(c.pingAck, 0))
+//@ at[C10] recv writeSem#1: assert wclosed(c.readConn)
+//@ ensures[C07] c.pendingAck == old(c.pendingAck) && forall(k, 0, len(c.pendingAck), c.pendingAck[k] == old(c.pendingAck[k]))
+//@ ensures[C10] !closed(c.writeSem) ==> wclosed(old(c.readConn))
+//@ ensures[C10,C18] !closed(c.writeSem) ==> len(c.writeSem) == 1 && qat(c.writeSem, 0) == boxed(connSignal, 0) && c.readConn == nil && c.bufr == nil && c.bigMessage == nil && len(c.peek) == 0
+//@ ensures[C11] !closed(c.writeSem) ==> forall(k, !has(c.perPacketID, k)) && len(c.pingAck) == 0
+//@ ensures[C14] forall(k, wire_len(k) == old(wire_len(k)))
